@@ -18,11 +18,11 @@ from vf import slicer
 
 _ct = slicer.parse(core.__file__)
 _for2 = slicer.find(_ct, ast.For, lambda n: ast.unparse(n.iter).replace(" ", "").startswith("map(str,args[1:])"))
-V2, SRC_V2 = slicer.make_function("v2", "self, args, parent, expand_recurse", "ht = {}\nnum = 1", _for2, "return ht", {"re": re, "Union": Union}, f"core.py:{_for2.lineno}")
+V2, SRC_V2 = slicer.make_function("v2", "self, args, parent, expand_recurse", "ht = {}\nnum = 1", _for2, "return ht", {**vars(core), "re": re, "Union": Union}, f"core.py:{_for2.lineno}")
 
 _lt = slicer.parse(lx.__file__)
 _for3 = slicer.find(_lt, ast.For, lambda n: ast.unparse(n.iter) == "args" and "frame_args[k]" in ast.unparse(n) and "re.match" in ast.unparse(n))
-V3, SRC_V3 = slicer.make_function("v3", "ctx, args", "frame_args = {}\nnum = 1", _for3, "return frame_args", {"re": re}, f"luaexec.py:{_for3.lineno}")
+V3, SRC_V3 = slicer.make_function("v3", "ctx, args", "frame_args = {}\nnum = 1", _for3, "return frame_args", {**vars(lx), "re": re}, f"luaexec.py:{_for3.lineno}")
 
 _lua = open(os.path.join(os.path.dirname(lx.__file__), "lua", "_sandbox_phase2.lua")).read()
 _m = re.search(r'if is_named then\s*v = v:match\s*"([^"]*)"', _lua)
